@@ -36,17 +36,25 @@ pub fn gf_mul(a: u8, b: u8) -> u8 {
 }
 
 /// Multiplicative inverse in GF(2^8); 0 is mapped to 0 (section 5.1.1, step 1).
-/// Found by exhaustive search so that it relies only on `gf_mul`.
+/// The multiplicative group has order 255, so a^-1 = a^254 (square-and-multiply on `gf_mul`);
+/// the result is checked with `gf_mul(a, inv) == 1`. (An exhaustive search for the inverse was
+/// used first; it made the model's start-up cost minutes under an interpreter.)
 fn gf_inv(a: u8) -> u8 {
     if a == 0 {
         return 0;
     }
-    for b in 1..=255u8 {
-        if gf_mul(a, b) == 1 {
-            return b;
+    let mut result = 1u8;
+    let mut base = a;
+    let mut e = 254u32;
+    while e > 0 {
+        if e & 1 == 1 {
+            result = gf_mul(result, base);
         }
+        base = gf_mul(base, base);
+        e >>= 1;
     }
-    unreachable!("every non-zero element of GF(2^8) has an inverse")
+    assert_eq!(gf_mul(a, result), 1, "a^254 is the inverse of a");
+    result
 }
 
 /// The affine transformation over GF(2) of section 5.1.1 (equation 5.1).
